@@ -2,7 +2,7 @@
 import os
 import sys
 sys.path.insert(0, os.path.dirname(__file__))
-from common import FEAT, BASE_ASSUMPTIONS  # noqa: E402
+from common import FEAT, BASE_ASSUMPTIONS, laws1  # noqa: E402
 
 RULE = ("RollKernels.tla: streaming machine with the code's accumulators vs Stats.tla definitions; TLC checks NoDrift, "
         "MomentsAgree, OutDef on every history within the bound (BFS) and on random deep histories (simulate); every "
@@ -20,7 +20,7 @@ def run(ctx):
     ctx.tlc("roll-win", "MCRollWin", "MCRollWin_quick.cfg" if q else "MCRollWin_thorough.cfg", workers=12 if q else 16,
             timeout=900 if q else 7200, emit=False)
     binp = ctx.build("tvh-roll")
-    extra = [] if q else ["--full"]
+    extra = ([] if q else ["--full"]) + laws1(ctx)
     ctx.harness("roll-bfs", binp, ["replay-roll1", "--kernels", FEAT, "--in", r1["emitted"]] + extra)
     ctx.harness("roll-sim", binp, ["replay-roll1", "--kernels", FEAT, "--in", r2["emitted"]] + extra)
     n = 2 if q else 10
